@@ -10,7 +10,8 @@ import CalVerif.Prim.Res
     Representation choices (the only places where the model is not a transliteration):
     * the input slice `&s[i..]` is the *remaining* byte list `rest` (`i >= s.len()` ⇔ `rest = []`);
     * the output vector `res` is kept **newest byte first** (`out = res.reverse`), so that `res.push(b)` is `b :: out`
-      and `res[res.len()-offset ..]` is `out.take offset` reversed; `decompress` reverses once at the end;
+      and `res[res.len()-offset ..]` is `out.take offset` reversed, `res[res.len()-offset .. res.len()-offset+len]`
+      is `(out.drop (offset-len)).take len` reversed; `decompress` reverses once at the end;
     * `bit_flags & (1 << bit_index)` for `bit_index = 0,1,…` is modelled by testing `flags % 2` and passing
       `flags / 2` to the next iteration of the `for` loop;
     * strings decoded by `encoding_rs` stay byte strings here (the harness decodes them with the same library);
@@ -49,7 +50,7 @@ def copyLoop (off : Nat) : Nat → Nat → Bytes → Nat → Res (Bytes × Nat)
     else
       if len > 4096 then .panic "decompress_stream: buf[..len]"
       else if off > olen then .panic "decompress_stream: res.len() - offset"
-      else .ok ((out.take off).drop (off - len) ++ out, olen + len)
+      else .ok ((out.drop (off - len)).take len ++ out, olen + len)
 
 /-- loop state inside one compressed chunk: `rest = s[i..]`, `out = res` reversed, `olen = res.len()` (a `Vec`
     carries its length; the model does too instead of recounting the list), `clen = chunk_len` -/
